@@ -396,7 +396,10 @@ func init() {
 						{"multi polygon", orb.MultiPolygon{{orb.Ring(other)}, {closed}}, oE + cE, oH + cH},
 						{"bound", bound, brE, brH},
 						{"collection", orb.Collection{other, bound, orb.Point{1, 0}, orb.Collection{ls}}, oE + brE + lE, oH + brH + lH},
-						{"collection holding the same nested collection twice", func() orb.Geometry { leg := orb.Collection{ls}; return orb.Collection{leg, other, leg, orb.Collection{leg}} }(), oE + 3*lE, oH + 3*lH},
+						{"collection holding the same nested collection twice", func() orb.Geometry {
+							leg := orb.Collection{ls}
+							return orb.Collection{leg, other, leg, orb.Collection{leg}}
+						}(), oE + 3*lE, oH + 3*lH},
 					} {
 						c.Evals(2)
 						if got := geo.Length(lc.g); !relClose(got, lc.wE, 1e-12, 0) {
